@@ -74,14 +74,16 @@ def build(tier, seed, known):
     maxlen = 3
     quick3 = ["slice_p1", "slice_p2", "slice_m1"]
     hists = [(k,) for k in KINDS] + list(itertools.product(BASIC, repeat=2))
+    partners = PARTNERS if tier == "quick" else PARTNERS + ["copy_late", "iter_interleaved", "reversed", "eq_list", "has_ind", "slice_to"]
     for sk in SLICE3 if tier == "thorough" else quick3:
-        for k in KINDS if tier == "thorough" else PARTNERS:
+        for k in partners:
             hists += [(sk, k), (k, sk)]
     if tier == "thorough":
         rnd = random.Random(seed)
-        hists += list(itertools.product(BASIC, repeat=3))
-        hists += rnd.sample(list(itertools.product(KINDS, repeat=3)), 300)
-        hists += rnd.sample(list(itertools.product(BASIC, repeat=4)), 400)
+        hists += [(a, b) for a in SLICE3 for b in SLICE3 if a <= b]
+        hists += rnd.sample(list(itertools.product(BASIC, repeat=3)), 2500)
+        hists += rnd.sample(list(itertools.product(KINDS, repeat=3)), 150)
+        hists += rnd.sample(list(itertools.product(BASIC, repeat=4)), 300)
     hists = list(dict.fromkeys(hists))
     src = "from hlib.common import *\n\n"
     excl = known_exclusions(known, "history")
@@ -91,7 +93,7 @@ def build(tier, seed, known):
         win = 2 if len(h) == 1 else 1
         src += history_fn(name, h, maxlen, excl, win=win)
         plan.obs.append(
-            Ob(oid=name, family="history", module="hist", fn=name, timeout=40 + 40 * len(h) + 60 * nsl + (240 if nsl + sum(1 for k in h if k == "slice_from") >= 2 else 0), desc="observation history " + " -> ".join(h) + " then listify, vs list model",
+            Ob(oid=name, family="history", module="hist", fn=name, timeout=40 + 40 * len(h) + 60 * nsl + (120 if nsl + sum(1 for k in h if k == "slice_from") >= 2 else 0), desc="observation history " + " -> ".join(h) + " then listify, vs list model",
                bounds="source list len<=%d unbounded ints; index/needle params unbounded; slice start/stop within len+-%d, step concrete per kind" % (maxlen, win))
         )
     for h in [("idx",), ("slice_p1", "len"), ("bool", "neg")]:
@@ -104,7 +106,7 @@ def build(tier, seed, known):
     plan.rule = (
         "skeleton = sequence of observation kinds (%d kinds; all histories of length 1, all pairs of the non-3-argument-slice kinds, 3-argument slices paired with a partner set%s); per skeleton the solver quantifies over the source list "
         "(length 0..%d, unbounded ints) and every operation parameter; oracle = the same observation on a python list (wrap-around i mod len for out-of-range "
-        "non-negative single indexes, 0 when empty); after the history listify() must equal the source" % (len(KINDS), " (thorough: with every kind), all triples of the basic kinds, seeded samples of 300 triples over all kinds and 400 quadruples" if tier == "thorough" else "", maxlen)
+        "non-negative single indexes, 0 when empty); after the history listify() must equal the source" % (len(KINDS), " (thorough: with eleven partners and with each other), seeded samples of 2 500 triples of the basic kinds, 150 triples over all kinds and 300 quadruples" if tier == "thorough" else "", maxlen)
     )
     plan.outside = ["source lists longer than 3", "histories longer than the bound", "slice bounds outside len+-2 (len+-1 inside longer histories) and steps outside -2..3 (range(lo,hi) makes the path count unbounded)",
                     "negative indexes below -len (a list raises there; the property is silent)", "ordering comparisons (not among the property's observations)", "non-integer items"]
